@@ -1,28 +1,35 @@
 (* C12 -- Instances never share mutable state or alter the defaults of later instances.
    Property theorems only; model: Alias/Model.v, proofs: Alias/Proofs.v.
 
-   [fixed] is the code with fixes/C12_parse_default (an absent defaulted member is a COPY of the class
-   default) and fixes/C12_mk_copy (mk_copy copies nested objects); [today] is the unrepaired code, for which
-   the statement is refuted below.  Values are compared for EVERY unfolding depth n. *)
+   A configuration [c] says what the code does at the four places where sharing can arise:
+     parse_fresh  an absent defaulted member is a COPY of the class default      (fixes/C12_parse_default)
+     mkcopy_deep  mk_copy copies nested objects                                  (fixes/C12_mk_copy)
+     arg_fresh    no constructor stores the object of a mutable default ARGUMENT (true today: there is none)
+     upd          update_from_other_container: UShallow = copy.copy per member (today), UDeep, UAlias
+   [fixed] is the repaired code (UShallow), [today] the code before the repairs, [fixed_deep] the code with a
+   deep-copying update, [shared_arg] / [byref_update] the two seeded classes of defect.
+   Operations: construct, parse, mk_copy, deepcopy, update, nested attribute write and IN-PLACE list
+   operations (append / pop / clear).  Values are compared for EVERY unfolding depth n. *)
 From Coq Require Import List ZArith.
 From SDC Require Import Alias.Model Alias.Proofs.
 Import ListNotations.
 
-(* Whatever is constructed, parsed, copied (shallow or deep), updated from another instance or written
-   afterwards -- every history -- each class default keeps the value it had at process start ... *)
-Theorem C12_defaults_constant : forall c ds ops k n, parse_fresh c = true ->
+(* Whatever is constructed, parsed, copied (shallow or deep), updated from another instance (any copy mode),
+   written or mutated in place afterwards -- every history -- each class default keeps the value it had at
+   process start ... *)
+Theorem C12_defaults_constant : forall c ds ops k n, parse_fresh c = true -> arg_fresh c = true ->
   default_value n (run c (init ds) ops) k = default_value n (init ds) k.
 Proof. exact defaults_constant. Qed.
 Print Assumptions C12_defaults_constant.
 
 (* ... hence a freshly constructed object has the same value at any time in the life of the process. *)
-Theorem C12_fresh_instance_constant : forall c ds ops fs n, parse_fresh c = true ->
+Theorem C12_fresh_instance_constant : forall c ds ops fs n, parse_fresh c = true -> arg_fresh c = true ->
   last_values n (step c (run c (init ds) ops) (ONew fs)) = last_values n (step c (init ds) (ONew fs)).
 Proof. exact new_constant. Qed.
 Print Assumptions C12_fresh_instance_constant.
 
-(* After any history of construct / parse / mk_copy / deepcopy / nested write, ANY further operation
-   (including an update) leaves the value of every instance other than its target unchanged. *)
+(* After any history of construct / parse / mk_copy / deepcopy / nested write / in-place list operation, ANY
+   further operation (including an update) leaves the value of every instance other than its target unchanged. *)
 Theorem C12_instances_independent : forall ds ops o r' n, no_update ops -> target o <> Some r' ->
   r' < length (insts (run fixed (init ds) ops)) ->
   inst_values n (step fixed (run fixed (init ds) ops) o) r' = inst_values n (run fixed (init ds) ops) r'.
@@ -34,9 +41,25 @@ Print Assumptions C12_instances_independent.
 Theorem C12_separation_reachable : forall ds ops, no_update ops ->
   Inv (run fixed (init ds) ops) /\ Sep (run fixed (init ds) ops).
 Proof.
-  exact (fun ds ops NU => conj (reachable_inv fixed ds ops eq_refl) (reachable_sep fixed ds ops eq_refl eq_refl NU)).
+  exact (fun ds ops NU => conj (reachable_inv fixed ds ops eq_refl eq_refl)
+                               (reachable_sep fixed ds ops eq_refl eq_refl eq_refl NU)).
 Qed.
 Print Assumptions C12_separation_reachable.
+
+(* an operation sequence over ANY separated heap stays separated: without updates, or with updates once
+   update_from_other_container copies deeply *)
+Theorem C12_separation_preserved : forall c s ops,
+  parse_fresh c = true -> mkcopy_deep c = true -> arg_fresh c = true -> (upd c = UDeep \/ no_update ops) ->
+  Inv s -> Sep s -> Inv (run c s ops) /\ Sep (run c s ops).
+Proof. exact sep_preserved. Qed.
+Print Assumptions C12_separation_preserved.
+
+(* ... and then independence holds for EVERY history (what a deep-copying update would buy) *)
+Theorem C12_instances_independent_if_update_deep : forall ds ops o r' n, target o <> Some r' ->
+  r' < length (insts (run fixed_deep (init ds) ops)) ->
+  inst_values n (step fixed_deep (run fixed_deep (init ds) ops) o) r' = inst_values n (run fixed_deep (init ds) ops) r'.
+Proof. exact instances_independent_deep. Qed.
+Print Assumptions C12_instances_independent_if_update_deep.
 
 (* The unrepaired code violates the statement: parse with the defaulted member absent, write through the
    parsed instance -> the class default and every later cls() show the written value. *)
@@ -57,16 +80,54 @@ Proof.
 Qed.
 Print Assumptions C12_mkcopy_refuted.
 
-(* non-vacuity: a history with defaults two levels deep, a parse with absent members, copies and writes;
-   separation is not trivially true (the instances own nested objects) and the write is visible *)
+(* STILL TRUE of the repaired code (known finding): after dst.update_from_other_container(src) the objects
+   below the copied member values are shared, a nested write on dst changes src -- C12_instances_independent
+   is the partial statement that excludes exactly the histories containing an update. *)
+Theorem C12_update_refuted : exists ds ops o r', target o <> Some r' /\
+  inst_values 4 (step fixed (run fixed (init ds) ops) o) r' <> inst_values 4 (run fixed (init ds) ops) r'.
+Proof.
+  exists [], [ONew [XNode [XNode [XImm 1]]]; ONew [XNode []]; OUpdate 1 0 []], (OWrite 1 [0; 0] 0 9), 0.
+  split; vm_compute; discriminate.
+Qed.
+Print Assumptions C12_update_refuted.
+
+(* class of defect 1: update hands list members over by reference -> an in-place append on the destination's
+   list changes the source (the repaired code keeps them apart) *)
+Theorem C12_update_byref_refuted : exists ds ops o r', target o <> Some r' /\
+  inst_values 3 (step byref_update (run byref_update (init ds) ops) o) r'
+    <> inst_values 3 (run byref_update (init ds) ops) r' /\
+  inst_values 3 (step fixed (run fixed (init ds) ops) o) r' = inst_values 3 (run fixed (init ds) ops) r'.
+Proof.
+  exists [], [ONew [XNode [XImm 1]]; ONew [XNode []]; OUpdate 1 0 []], (OMut 1 [0] (MAppend 9)), 0.
+  split; [vm_compute; discriminate|]. split; [vm_compute; discriminate|reflexivity].
+Qed.
+Print Assumptions C12_update_byref_refuted.
+
+(* class of defect 2: a constructor that stores its mutable default ARGUMENT -- no update, no parse needed:
+   an in-place append on one instance changes another instance, the default object, and every later cls() *)
+Theorem C12_ctor_default_arg_refuted : exists ds ops o fs, no_update (ops ++ [o]) /\ target o <> Some 1 /\
+  inst_values 3 (step shared_arg (run shared_arg (init ds) ops) o) 1 <> inst_values 3 (run shared_arg (init ds) ops) 1 /\
+  default_value 3 (step shared_arg (run shared_arg (init ds) ops) o) 0 <> default_value 3 (init ds) 0 /\
+  last_values 3 (step shared_arg (step shared_arg (run shared_arg (init ds) ops) o) (ONew fs))
+    <> last_values 3 (step shared_arg (init ds) (ONew fs)).
+Proof.
+  exists wit_arg_ds, [ONew [XImm 5; XArg 0]; ONew [XImm 6; XArg 0]], (OMut 0 [1] (MAppend 7)), [XImm 0; XArg 0].
+  split; [reflexivity|]. repeat split; vm_compute; discriminate.
+Qed.
+Print Assumptions C12_ctor_default_arg_refuted.
+
+(* non-vacuity: a history with defaults two levels deep, a parse with absent members, copies, writes and
+   in-place list operations; separation is not trivially true (the instances own nested objects) and the
+   mutations are visible in their target only *)
 Example C12_nonvacuous :
   let ds := [TNode [TImm 1; TNode [TImm 2]]; TNode []] in
   let ops := [ONew [XImm 4; XDefault 0; XNode [XDefault 1]]; OParse [XImm 5; XDefault 0; XNode []];
-              OCopy 1; ODeepCopy 0; OWrite 1 [1; 1] 0 8; OWrite 2 [1] 0 9] in
+              OCopy 1; ODeepCopy 0; OWrite 1 [1; 1] 0 8; OWrite 2 [1] 0 9;
+              OMut 2 [1; 1] (MAppend 3); OMut 3 [2] MClear; OMut 0 [1] MPop] in
   let s := run fixed (init ds) ops in
-  all_insts s = [[TImm 4; TNode [TImm 1; TNode [TImm 2]]; TNode [TNode []]];
+  all_insts s = [[TImm 4; TNode [TImm 1]; TNode [TNode []]];
                  [TImm 5; TNode [TImm 1; TNode [TImm 8]]; TNode []];
-                 [TImm 5; TNode [TImm 9; TNode [TImm 2]]; TNode []];
-                 [TImm 4; TNode [TImm 1; TNode [TImm 2]]; TNode [TNode []]]] /\
+                 [TImm 5; TNode [TImm 9; TNode [TImm 2; TImm 3]]; TNode []];
+                 [TImm 4; TNode [TImm 1; TNode [TImm 2]]; TNode []]] /\
   all_defaults s = ds /\ check_C12 fixed ds ops = true /\ check_C12 today ds ops = false.
 Proof. vm_compute. repeat split. Qed.
